@@ -447,7 +447,136 @@ def r6(F, rep):
     self_default(F, rep, "C18-R6", only=("period", "wrap_center"))
 
 
+def r8(F, rep, rid="C18-R8"):
+    rep.rule(rid, "distance and gradient choose the image by the same tests: in every class that defines dist2() and a gradient "
+                  "of it (dist2_grad / dist2_lgrad / dist2_rgrad), each branch condition of dist2() (if and ?:, constant locals "
+                  "resolved to their initialisers) is also a branch condition of the gradient -- unless the gradient only "
+                  "forwards to a sibling gradient; a gradient that picks the other image (q vs -q, one period off) is the "
+                  "derivative of a different distance")
+
+    def conds(f):
+        res = X.const_locals(f)
+        out = {}
+        for n in f.walk():
+            if n["k"] == "IfStmt":
+                cs = n["c"]
+                cn = cs[1] if len(cs) == 4 else cs[0]
+            elif n["k"] == "ConditionalOperator":
+                cn = n["c"][0]
+            else:
+                continue
+            if cn is not None:
+                out.setdefault(X.re_strip(X.key(cn, f, res)), cn)
+        return out
+    by = {}
+    for f in F.funcs.values():
+        if f.body is None or not f.cls or "/src/" not in f.file:
+            continue
+        if f.name in ("dist2", "dist2_grad", "dist2_lgrad", "dist2_rgrad"):
+            by.setdefault(f.cls, {}).setdefault(f.name, []).append(f)
+    n = 0
+    for cls, d in sorted(by.items()):
+        for f in d.get("dist2", []):
+            a = conds(f)
+            if not a:
+                continue
+            for nm in ("dist2_grad", "dist2_lgrad", "dist2_rgrad"):
+                for g in d.get(nm, []):
+                    b = conds(g)
+                    if not b and any(X.callee_name(c) in ("dist2_grad", "dist2_lgrad", "dist2_rgrad") for c in X.calls(g)):
+                        continue
+                    n += 1
+                    miss = sorted(set(a) - set(b))
+                    rep.add(rid, "%s|%s" % (cls, nm), g.loc(), "%s::%s %s" % (cls, nm, "branches on every condition dist2() branches on" if not miss else
+                                                                          "does NOT branch on `%s`, which dist2() uses to choose the image" % miss[0][:90]), not miss,
+                            detail="the force derived from the gradient pulls towards another image than the one whose distance is reported as the energy", func=g.q)
+    if n < 4:
+        raise AnalysisBroken("%s: only %d (dist2, gradient) pairs with branch conditions found" % (rid, n))
+
+
+def _num_eval(f, n, var_pred, value, res):
+    """Concrete value of an arithmetic/boolean expression in which every sub-expression accepted by var_pred has the
+    given value; None if a construct is not understood."""
+    n = X.strip(n)
+    if var_pred(n):
+        return value
+    k = n["k"]
+    if k == "DeclRefExpr" and res and n.get("d") in res:
+        return _num_eval(f, res[n["d"]], var_pred, value, res)
+    lit = C._lit(n)
+    if lit is not None:
+        return lit
+    if k == "BinaryOperator":
+        a = _num_eval(f, X.kids(n)[0], var_pred, value, res)
+        b = _num_eval(f, X.kids(n)[1], var_pred, value, res)
+        if a is None or b is None:
+            return None
+        op = n["op"]
+        try:
+            return {"+": lambda: a + b, "-": lambda: a - b, "*": lambda: a * b, "/": lambda: a / b,
+                    "<": lambda: a < b, ">": lambda: a > b, "<=": lambda: a <= b, ">=": lambda: a >= b,
+                    "==": lambda: a == b, "!=": lambda: a != b, "&&": lambda: bool(a) and bool(b), "||": lambda: bool(a) or bool(b)}[op]()
+        except (KeyError, ZeroDivisionError):
+            return None
+    if k == "UnaryOperator" and n["op"] in ("-", "!", "+"):
+        a = _num_eval(f, X.kids(n)[0], var_pred, value, res)
+        if a is None:
+            return None
+        return -a if n["op"] == "-" else ((not a) if n["op"] == "!" else a)
+    if k == "CallExpr" and X.callee_name(n) in ("fabs", "abs") and len(X.call_args(n)) == 1:
+        a = _num_eval(f, X.call_args(n)[0], var_pred, value, res)
+        return abs(a) if a is not None else None
+    if k in ("CXXFunctionalCastExpr", "CStyleCastExpr", "CXXStaticCastExpr") and X.kids(n):
+        return _num_eval(f, X.kids(n)[-1], var_pred, value, res)
+    return None
+
+
+def r9(F, rep, rid="C18-R9"):
+    rep.rule(rid, "a difference of components keeps their metric: the conditions under which colvar::init() declares a variable "
+                  "NOT homogeneous (the flag that lets it inherit period and wrap centre from its components) give the same "
+                  "answer for a coefficient c and for -c -- evaluated for c = +1, -1 (homogeneous) and +0.5, -0.5, 2 (not) by "
+                  "substituting the value for every read of the coefficient in the guarding condition")
+    f = F.one("colvar::init")
+    res = X.const_locals(f)
+    from .rules_c03 import all_guards
+    from .rules_c10 import lvalue_writes
+    # the local that is handed to set_enabled(f_cv_homogeneous, V)
+    flag = None
+    for c in X.calls(f):
+        if X.callee_name(c) == "set_enabled" and len(X.call_args(c)) == 2 and "f_cv_homogeneous" in X.key(X.call_args(c)[0], f):
+            v = X.strip(X.call_args(c)[1])
+            if v["k"] == "DeclRefExpr":
+                flag = v.get("d")
+    if flag is None:
+        raise AnalysisBroken("%s: colvar::init() does not set f_cv_homogeneous from a local" % rid)
+    is_c = lambda n: n["k"] == "MemberExpr" and n.get("n") == "sup_coeff"
+    n = 0
+    for w, t in lvalue_writes(f):
+        ts = X.strip(t)
+        if ts["k"] != "DeclRefExpr" or ts.get("d") != flag or w.get("op") != "=" or C._lit(X.kids(w)[1]) != 0:
+            continue
+        for cn, pol in all_guards(f, w):
+            if not X.mentions(cn, is_c):
+                continue
+            n += 1
+            vals = {}
+            for c0 in (1.0, -1.0, 0.5, -0.5, 2.0):
+                r = _num_eval(f, cn, is_c, c0, res)
+                vals[c0] = None if r is None else (bool(r) == bool(pol))
+            if any(v is None for v in vals.values()):
+                raise AnalysisBroken("%s: the condition `%s` could not be evaluated" % (rid, X.re_strip(X.key(cn, f, res))[:80]))
+            ok = vals[1.0] == vals[-1.0] and vals[0.5] == vals[-0.5] and not vals[1.0] and vals[0.5] and vals[2.0]
+            rep.add(rid, "colvar::init|homogeneous", f.loc(w), "colvar::init() clears the homogeneous flag for coefficient c: %s" % (
+                ", ".join("c=%g: %s" % (c0, "cleared" if vals[c0] else "kept") for c0 in (1.0, -1.0, 0.5, -0.5, 2.0))), ok,
+                detail="a variable defined as a difference of periodic components (coefficient -1) would lose their period: distances across "
+                       "the boundary are taken the long way round and wrap() does nothing", func=f.q)
+    if n < 1:
+        raise AnalysisBroken("%s: no assignment clearing the homogeneous flag under a test of the coefficient" % rid)
+
+
 def run(F, rep, tier):
+    r9(F, rep)
+    r8(F, rep)
     r7(F, rep)
     r6(F, rep)
     r5(F, rep)
